@@ -19,6 +19,7 @@ func init() {
 	register(&PropDef{ID: "C15", Title: "Named resource locks: writers exclude everyone, readers share, no deadlock", Rules: rulesC15,
 		Explanation: "Decided (structural necessary conditions): R1 the acquisition loop of SharedMutex.Lock walks, in ascending order, a slice on which a sort dominates the loop with no element write in between, and the sort's comparator reads nothing but the resource name (one global order, independent of the access mode); R2 the per-name mutex is inserted only on the miss edge of a lookup made under the same write hold of the table lock (one mutex per name); R3 a row marked read (LockR) is acquired with RLock and released with RUnlock, a row marked write with Lock/Unlock — constants read from the source; R4 the pipeline runner acquires the task's lock map after it finished waiting for prerequisite tasks (no hold-and-wait), before the body, and releases it on every path; R5 pip:run passes the read list with LockR and the write list with LockRW, and the key stored for a '@'-global name does not depend on the namespace while a local name does. " +
 			"Added in round 2: R4 also requires that the scope Wait following the body lies inside the locked section (the lock map is not released before the work the body registered on its scope has ended); R5 also requires that pip:run applies the write list after the read list into the same map (a name in both lists ends up write-locked). " +
+			"Added in round 4: R2 also covers a sync.Map registry: only Load/LoadOrStore/Range are applied to it (an entry is never replaced or dropped) and get returns what Load/LoadOrStore returned, never its own candidate; R5 follows keys that are first collected in a local slice and stored afterwards. " +
 			"NOT decided: fairness/starvation of sync.RWMutex, and the actual run-time exclusion (that follows from R2+R3 and sync's contract).",
 	})
 }
